@@ -1,5 +1,6 @@
 """Generator of small simulation worlds for the S-sim stream (cluster x workload x flags).
 Every choice comes from the rng handed in (seeded by VERIF_SEED)."""
+import random
 
 RUNTIMES = [1, 2, 3, 5, 10, 50]
 RES = ["CPU", "GPU", "MEM"]
@@ -319,8 +320,25 @@ def gen_direct_world(rng):
              "scheduler_frequency": rng.choice([-1, -1, 1, 7]), "scheduler_delay": rng.choice([0, 0, 1]),
              "runtime_variance": 0, "loop_timeout": rng.choice([10 ** 6, 400]),
              "scheduler_run_at_worker_free": rng.random() < 0.2}
-    return {"workload": {"graphs": [], "profiles": profiles}, "direct": {"graphs": graphs}, "workers": pools, "flags": flags,
-            "policy": policy}
+    world = {"workload": {"graphs": [], "profiles": profiles}, "direct": {"graphs": graphs}, "workers": pools, "flags": flags,
+             "policy": policy}
+    # (choices below come from a generator derived from the state of `rng`, so that the worlds drawn after this one are the
+    # ones drawn before these options existed)
+    r2 = random.Random(repr(rng.getstate()[1][:4]))
+    if r2.random() < 0.45:
+        # strategy runtimes that are whole milliseconds, handed to the simulator as EventTime(k, MS) — the way a task loader
+        # with coarse profiles does; other strategies of the same world stay in microseconds
+        for prof in profiles:
+            if r2.random() < 0.6:
+                for st in prof["execution_strategies"]:
+                    st["runtime"] = r2.choice([1000, 1000, 2000, 3000])
+        world["direct"]["coarse_runtimes"] = True
+        flags["loop_timeout"] = 10 ** 6
+    if r2.random() < 0.5:
+        # an adversarial but contract-respecting policy that plans ahead (future start times, retraction, unplaced decisions)
+        world["fuzz"] = {"seed": r2.randint(0, 10 ** 6), "lookahead": 0, "retract": r2.random() < 0.4, "p_cancel": 0.0,
+                         "p_unplaced": 0.1, "p_future": 0.6, "p_keep": 0.3, "release_taskgraphs": False}
+    return world
 
 
 def gen_clockwork_world(rng):
@@ -441,7 +459,7 @@ def signature(world):
     if any(branch_sink(g) for g in world["workload"]["graphs"]):
         sig.add("branch_sink")
     # known finding F41: time values that are not expressed in microseconds reach the CSV rows as raw magnitudes
-    if (fz and fz.get("coarse_units")) or any(t.get("deadline", 1) % 1000 == 0 for g in world.get("direct", {}).get("graphs", [])
+    if world.get("direct", {}).get("coarse_runtimes") or (fz and fz.get("coarse_units")) or any(t.get("deadline", 1) % 1000 == 0 for g in world.get("direct", {}).get("graphs", [])
                                                for t in g["tasks"]):
         sig.add("non_us_times")
     return sig
